@@ -258,7 +258,7 @@ impl Property for C10 {
     }
     fn cases(&self, tier: Tier) -> usize {
         match tier {
-            Tier::Quick => 40_000,
+            Tier::Quick => 200_000,
             Tier::Thorough => 600_000,
         }
     }
